@@ -4,17 +4,17 @@ import { loadModule } from '../runtime/evalhost.mjs';
 
 export const id = 'C20';
 
-export const PROVENANCE = ['vueNamed', 'vueNamedInner', 'vueAliased', 'nsMember', 'localFn', 'shadowed', 'otherModule', 'localArrowConst', 'vueOtherExportAsName', 'vueNamedSplitImports', 'vueAliasedPlusForeign', 'foreignAfterVueImport', 'vueLikeModule'];
+export const PROVENANCE = ['vueNamed', 'vueNamedInner', 'vueAliased', 'nsMember', 'localFn', 'shadowed', 'otherModule', 'localArrowConst', 'vueOtherExportAsName', 'vueNamedSplitImports', 'vueAliasedPlusForeign', 'foreignAfterVueImport', 'vueLikeModule', 'vueAliasedPlusLocalFn'];
 export const DECLS = ['const', 'let', 'var', 'exportConst', 'exportDefault', 'assignment', 'nestedInCall', 'objectProp'];
 // user-supplied option keys: how each of props / emits / name is written (or not)
 const KEY_FORMS = ['absent', 'kv', 'strKey', 'shorthand', 'computedLit', 'viaSpread'];
-export const SHAPES = ['none', 'objLiteral', 'objLiteralTwoSpreads', 'identOptions', 'callOptions', 'spreadArgsAll', 'spreadArgsRest', 'spreadArgsSetupOnly', 'spreadHeadThenOpts', 'objectFirstArg', 'namedFnExpr', 'noArgs', 'identOptionsThirdArg', 'objLiteralThirdArg'];
+export const SHAPES = ['none', 'objLiteral', 'objLiteralTwoSpreads', 'identOptions', 'callOptions', 'spreadArgsAll', 'spreadArgsRest', 'spreadArgsSetupOnly', 'spreadHeadThenOpts', 'objectFirstArg', 'namedFnExpr', 'noArgs', 'identOptionsThirdArg', 'objLiteralThirdArg', 'setupByRef', 'dotCall', 'dotApply'];
 
 const USER = { props: 'UP', emits: 'UE', name: '"UserName"' };
 
 function buildCase(rng, prov, decl, shape, forms, resolveType) {
   const L = [];
-  const callee = { vueNamed: 'defineComponent', vueNamedInner: 'defineComponent', vueAliased: 'dc', nsMember: 'Vue.defineComponent', localFn: 'defineComponent', shadowed: 'defineComponent', otherModule: 'defineComponent', localArrowConst: 'defineComponent', vueOtherExportAsName: 'defineComponent', vueNamedSplitImports: 'defineComponent', vueAliasedPlusForeign: 'defineComponent', foreignAfterVueImport: 'defineComponent', vueLikeModule: 'defineComponent' }[prov];
+  const callee = { vueNamed: 'defineComponent', vueNamedInner: 'defineComponent', vueAliased: 'dc', nsMember: 'Vue.defineComponent', localFn: 'defineComponent', shadowed: 'defineComponent', otherModule: 'defineComponent', localArrowConst: 'defineComponent', vueOtherExportAsName: 'defineComponent', vueNamedSplitImports: 'defineComponent', vueAliasedPlusForeign: 'defineComponent', foreignAfterVueImport: 'defineComponent', vueLikeModule: 'defineComponent', vueAliasedPlusLocalFn: 'defineComponent' }[prov];
   const needsCtxImport = true;
   switch (prov) {
     case 'vueNamed': case 'vueNamedInner': case 'shadowed': L.push('import { defineComponent, SetupContext } from "vue";'); break;
@@ -24,6 +24,7 @@ function buildCase(rng, prov, decl, shape, forms, resolveType) {
     case 'nsMember': L.push('import * as Vue from "vue";', 'import type { SetupContext } from "vue";'); break;
     // Vue's own defineComponent is imported under another name; the name defineComponent belongs to another module
     case 'vueAliasedPlusForeign': L.push('import { defineComponent as defineVueComponent, SetupContext } from "vue";', 'import { defineComponent } from "other";'); break;
+    case 'vueAliasedPlusLocalFn': L.push('import { h as unusedH, defineComponent as vueDefineComponent, SetupContext } from "vue";'); break;
     // a foreign defineComponent imported AFTER an import from vue
     case 'foreignAfterVueImport': L.push('import { ref as unusedRef, SetupContext } from "vue";', 'import { defineComponent } from "other";'); break;
     case 'otherModule': L.push('import { defineComponent } from "other";', 'import type { SetupContext } from "vue";'); break;
@@ -32,6 +33,7 @@ function buildCase(rng, prov, decl, shape, forms, resolveType) {
     default: L.push('import type { SetupContext } from "vue";');
   }
   L.push('const UP = { userProp: String };', 'const UE = ["user-evt"];', 'interface P { a: string }');
+  if (prov === 'vueAliasedPlusLocalFn') L.push('function defineComponent(a: any, b?: any) { return recordDC("localWrapper", arguments.length, a, b); }');
   if (prov === 'localFn') L.push('function defineComponent(a: any, b?: any) { return recordDC("local", arguments.length, a, b); }');
   if (prov === 'localArrowConst') L.push('const defineComponent = (...args: any[]) => recordDC("localArrow", args.length, args[0], args[1]);');
   // user options
@@ -54,6 +56,7 @@ function buildCase(rng, prov, decl, shape, forms, resolveType) {
   const setup = `(props: P${withDefault ? ' = DEFS' : ''}, ctx: SetupContext<{ (e: "chg"): void }>) => () => null`;
   let args;
   let augmentable = true; // whether the call shape allows augmentation at all
+  let noDerive = false, calleeSuffix = '';
   let fnName = '';
   switch (shape) {
     case 'none': args = setup; for (const k of Object.keys(supplied)) delete supplied[k]; break;
@@ -79,13 +82,18 @@ function buildCase(rng, prov, decl, shape, forms, resolveType) {
     case 'callOptions': L.push(`const mkUO = () => ({ ${[...members, ...spreadMembers, ...other].join(', ')} });`); args = `${setup}, mkUO()`; break;
     case 'spreadArgsAll': L.push(`const ARGS: [any, any] = [${setup}, { ${[...members, ...spreadMembers, ...other].join(', ')} }];`); args = '...ARGS'; augmentable = false; break;
     case 'spreadArgsRest': L.push(`const REST: [any] = [{ ${[...members, ...spreadMembers, ...other].join(', ')} }];`); args = `${setup}, ...REST`; augmentable = false; break;
+    // the setup function passed by reference: nothing can be derived from it, the user's options (a name among them) stay as written
+    case 'setupByRef': L.push(`const setupRef = ${setup};`); args = `setupRef${members.length + other.length ? `, { ${[...members, ...other].join(', ')} }` : ''}`; noDerive = true; for (const k of Object.keys(supplied)) if (forms[k] === 'viaSpread') delete supplied[k]; break;
+    // defineComponent.call / .apply are member calls, not calls of defineComponent
+    case 'dotCall': calleeSuffix = '.call'; args = `null, ${setup}, { ${[...members, ...other].join(', ')} }`; augmentable = false; for (const k of Object.keys(supplied)) if (forms[k] === 'viaSpread') delete supplied[k]; break;
+    case 'dotApply': calleeSuffix = '.apply'; args = `null, [${setup}, { ${[...members, ...other].join(', ')} }]`; augmentable = false; for (const k of Object.keys(supplied)) if (forms[k] === 'viaSpread') delete supplied[k]; break;
     // a call without arguments has no options position to augment
     case 'noArgs': args = ''; augmentable = false; for (const k of Object.keys(supplied)) delete supplied[k]; break;
     case 'objectFirstArg': args = `{ name: "ObjForm", props: UP, setup() { return () => null; } }`; augmentable = false; for (const k of Object.keys(supplied)) delete supplied[k]; break;
     case 'namedFnExpr': fnName = rng.pick(['OwnName', 'OwnName', 'setupFn', '_panel', '$panel', 'renderPanel']); args = `function ${fnName}(props: P) { return () => null; }${members.length + other.length ? `, { ${[...members, ...other].join(', ')} }` : ''}`; for (const k of Object.keys(supplied)) if (forms[k] === 'viaSpread') delete supplied[k]; break;
     default: throw new Error(shape);
   }
-  const call = `${callee}(${args})`;
+  const call = `${callee}${calleeSuffix}(${args})`;
   let varNamed = false;
   const body = [];
   switch (decl) {
@@ -109,9 +117,9 @@ function buildCase(rng, prov, decl, shape, forms, resolveType) {
   return {
     src: L.join('\n') + '\n',
     spec: {
-      withDefault, prov, isVueRuntime: ['vueNamed', 'vueNamedInner', 'vueAliased', 'nsMember', 'vueNamedSplitImports'].includes(prov), augment, mayAugment, supplied, shape, fnName, varNamed,
+      withDefault, prov, isVueRuntime: ['vueNamed', 'vueNamedInner', 'vueAliased', 'nsMember', 'vueNamedSplitImports'].includes(prov), augment: augment && !noDerive, mayAugment: mayAugment && !noDerive, supplied, shape, fnName, varNamed, noDerive,
       // `defineComponent(...args)` hides the argument count from the transform, but not from the runtime
-      nameInjectable: resolveType && isVue && varNamed && !shape.startsWith('spread') && shape !== 'noArgs',
+      nameInjectable: resolveType && isVue && varNamed && !shape.startsWith('spread') && shape !== 'noArgs' && !shape.startsWith('dot'),
       mayNameInject: resolveType && prov === 'vueAliased' && varNamed && augmentable,
     },
   };
@@ -194,7 +202,8 @@ export async function check(group, records) {
         const e = {};
         for (const k of ['props', 'emits']) e[k] = spec.supplied[k] ? USERVAL[k] : aug && !(k === 'emits' && spec.shape === 'namedFnExpr') ? DERIVED[k] : undefined;
         if (e.props === DERIVED.props && spec.withDefault && spec.shape !== 'namedFnExpr') e.props = { a: { type: 'String', required: true, default: 'x' } };
-        e.name = spec.supplied.name ? 'UserName' : spec.fnName ? spec.fnName : nameInj ? 'Comp' : '';
+        // (a setup function passed by reference has a name of its own, which the transform cannot see: the variable's name is still injected)
+        e.name = spec.supplied.name ? 'UserName' : spec.shape === 'setupByRef' ? (nameInj ? 'Comp' : 'setupRef') : spec.fnName ? spec.fnName : nameInj ? 'Comp' : '';
         return e;
       };
       alternatives.push(expectWith(spec.augment, spec.nameInjectable));
@@ -211,7 +220,7 @@ export async function check(group, records) {
     // non-vue callee: the call must be untouched (same argument count, no injected keys)
     const calls = rt.log.filter((e) => (e.k === 'call' && (e.id === 'recordDC' || e.id === 'other.defineComponent')) || e.k === 'defineAsyncComponent');
     if (calls.length !== 1) return [inconclusive({ ...base, reason: `expected 1 recorded call, saw ${calls.length}` })];
-    const expectedArgc = { noArgs: 0, identOptionsThirdArg: 3, objLiteralThirdArg: 3, none: 1, objLiteral: 2, objLiteralTwoSpreads: 2, identOptions: 2, callOptions: 2, spreadArgsAll: 2, spreadArgsRest: 2, spreadArgsSetupOnly: 1, spreadHeadThenOpts: 2, objectFirstArg: 1, namedFnExpr: /, \{/.test(group.cases.v0.src.split(`function ${spec.fnName}(`)[1] || '') ? 2 : 1 }[spec.shape];
+    const expectedArgc = { dotCall: 2, dotApply: 2, setupByRef: /setupRef, \{/.test(group.cases.v0.src) ? 2 : 1, noArgs: 0, identOptionsThirdArg: 3, objLiteralThirdArg: 3, none: 1, objLiteral: 2, objLiteralTwoSpreads: 2, identOptions: 2, callOptions: 2, spreadArgsAll: 2, spreadArgsRest: 2, spreadArgsSetupOnly: 1, spreadHeadThenOpts: 2, objectFirstArg: 1, namedFnExpr: /, \{/.test(group.cases.v0.src.split(`function ${spec.fnName}(`)[1] || '') ? 2 : 1 }[spec.shape];
     const argc = calls[0].id === 'recordDC' ? undefined : calls[0].argc;
     // recordDC("tag", argc, a, b): look at the final text instead of the values for the injected keys
     const finalCall = rec.final;
